@@ -129,7 +129,7 @@ func NewRxTransaction(
 		raddr:   raddr,
 		seq:     seq,
 		id:      fmt.Sprintf("%s-%d", raddr, seq),
-		timeout: server.cfg.Pfcp.RetransTimeout * time.Duration(server.cfg.Pfcp.MaxRetrans+1),
+		timeout: server.cfg.Pfcp.RetransTimeout * (time.Duration(server.cfg.Pfcp.MaxRetrans) + 1),
 	}
 	rx.log = server.log.WithField(logger_util.FieldPFCPRxTransaction, rx.id)
 	// Start rx timer to delete rx
